@@ -671,6 +671,11 @@ fn ev_from_json(o: &serde_json::Value) -> Event {
     if let Some(a) = o.get("ks").and_then(|x| x.as_array()) {
         ev.ks = a.iter().map(|x| x.as_i64().unwrap()).collect();
     }
+    // an injected callback panic: class ("hash", "eq", "clone", "drop", "bh_clone") at its fk-th invocation inside the call
+    if let Some(fa) = o.get("fa").and_then(|x| x.as_str()) {
+        ev.fa = fa.to_string();
+        ev.fk = gi("fk", 1);
+    }
     ev
 }
 
@@ -700,7 +705,7 @@ where
     let w = hashbrown::verif::GROUP_WIDTH;
     let (es, _) = hashbrown::verif::table_layout::<(K, V)>();
     let ea = std::mem::align_of::<(K, V)>();
-    let faulty = b["ops"].as_array().map_or(false, |a| a.iter().any(|o| o.get("pa").is_some()));
+    let faulty = b["ops"].as_array().map_or(false, |a| a.iter().any(|o| o.get("pa").is_some() || o.get("fa").is_some()));
     let chaos = b.get("chaos").and_then(|x| x.as_u64()).unwrap_or(0) > 0;
     if chaos {
         env::setup_chaos(seed ^ 0xC4A05, vec![0, 0, 5, 15, 16, 31, 63, 65535], 3, true, false);
@@ -750,7 +755,7 @@ where
     let w = hashbrown::verif::GROUP_WIDTH;
     let (es, _) = hashbrown::verif::table_layout::<(K, ())>();
     let ea = std::mem::align_of::<(K, ())>();
-    let faulty = b["ops"].as_array().map_or(false, |a| a.iter().any(|o| o.get("pa").is_some()));
+    let faulty = b["ops"].as_array().map_or(false, |a| a.iter().any(|o| o.get("pa").is_some() || o.get("fa").is_some()));
     tr.reset("set", name, w, es, ea, std::mem::needs_drop::<K>(), K::TRACKED, nt, if faulty { "fault" } else { "lawful" }, seed);
     let mut drv: SetDrv<K> = SetDrv::new(nt, w);
     for t in 1..=nt {
@@ -780,7 +785,7 @@ fn replay_table<E: ElemT>(b: &serde_json::Value, name: &str, seed: u64, tr: &mut
     let w = hashbrown::verif::GROUP_WIDTH;
     let (es, _) = hashbrown::verif::table_layout::<E>();
     let ea = std::mem::align_of::<E>();
-    let faulty = b["ops"].as_array().map_or(false, |a| a.iter().any(|o| o.get("pa").is_some()));
+    let faulty = b["ops"].as_array().map_or(false, |a| a.iter().any(|o| o.get("pa").is_some() || o.get("fa").is_some()));
     tr.reset("table", name, w, es, ea, std::mem::needs_drop::<E>(), E::TRACKED, nt, if faulty { "fault" } else { "lawful" }, seed);
     let mut drv: TableDrv<E> = TableDrv::new(nt, w);
     for t in 1..=nt {
